@@ -490,8 +490,9 @@ def run_case(case, mods):
         session = 0
         try:
             for op in case["prog"]:
-                coop.switch()
                 k = op[0]
+                if k != "readd":          # (not an operation of the model: no scheduling point of its own)
+                    coop.switch()
                 if k == "tick":
                     clock.now += int(op[1])
                 elif k == "start":
@@ -514,6 +515,17 @@ def run_case(case, mods):
                     dc.update(m)
                 elif k == "upd0":
                     dc.update(None)
+                elif k == "readd":
+                    # reconfiguration between recordings: every data set is added again under its own name with the
+                    # same settings (a fresh DataSet object replaces the old one) - nothing changes for what is recorded
+                    if dc.stopped:
+                        coop.quiet = True
+                        try:
+                            for d in case["datasets"]:
+                                dc.add_data_set(ds_mod.DataSet("col", d["name"], "", d["name"], fmts[d["fmt"]], d["interval"],
+                                                               d["types"], md))
+                        finally:
+                            coop.quiet = False
                 else:
                     raise RuntimeError("bad op " + str(op))
             coop.switch()
